@@ -355,7 +355,7 @@ def run(tier: str, seed: int):
     col = U.Collector('C05 bounded: recording oracle for the tree_map family, traverse/walk, functor laws')
     src = fn_src()
     if tier == 'quick':
-        g, ds, txt = U.universe(tier, seed, U.EXT, quick_nodes=4, quick_limit=2200)
+        g, ds, txt = U.universe(tier, seed, U.EXT, quick_nodes=4, quick_limit=1250)
     else:
         g, ds, txt = U.universe(tier, seed, U.EXT, thorough_nodes=3)
         ds += U.random_descrs(seed, U.EXT, 4, 20000) + U.random_descrs(seed, U.EXT, 5, 12000) + U.random_descrs(seed, U.EXT, 6, 8000) \
@@ -374,13 +374,18 @@ def run(tier: str, seed: int):
                 continue          # see C01 notes: functools.partial copies/type-checks its keywords dict
             tag = f'tree {S.show(d)} [{U.opt_repr(o)}]'
             U.run_checks(col, PROP, [chk_laws], src, tree, lambda tree=tree: U.to_src(tree), o, tag)
-            combos = REST_COMBOS if S.count_nodes(d) <= 3 else [REST_COMBOS[(i + len(o['namespace'])) % len(REST_COMBOS)], [1, 2]]
+            small = S.count_nodes(d) <= 3
+            if tier == 'quick':
+                combos = [[], [1], [2, 1], [1, 2, 0]] if small else [REST_COMBOS[(i + len(o['namespace'])) % len(REST_COMBOS)]]
+            else:
+                combos = REST_COMBOS if small else [REST_COMBOS[(i + len(o['namespace'])) % len(REST_COMBOS)], [1, 2]]
             for combo in combos:
                 case = (tree, combo)
                 U.run_checks(col, PROP, [chk_map], src, case, lambda case=case: case_src(case), o, f'{tag} rest variants {combo}')
-            edits = list(applicable_edits(tree, o))
-            if S.count_nodes(d) > 3 and len(edits) > 3:
-                edits = rng.sample(edits, 3)
+            edits = list(applicable_edits(tree, o)) if not (o['ins'] and tier == 'quick') else []
+            cap = 3 if tier != 'quick' else 2
+            if not small and len(edits) > cap:
+                edits = rng.sample(edits, cap)
             for n_e, edit in enumerate(edits):
                 case = (tree, edit, (i + n_e) % 4)
                 nbad += 1
